@@ -47,13 +47,37 @@ def run(ctx):
         d = os.path.join(cases, "src")
         if os.path.isdir(d):
             vlib.clean_dir(d)
-        rc, out = vlib.run([vlib.harness_bin("h01"), cases, ctx.tier, "c05"], timeout=6000)
-        ctx.log(out.strip().splitlines()[-1] if out.strip() else "h01: no output")
-        if rc != 0 or not os.path.exists(os.path.join(cases, "c05_summary.json")):
-            ctx.violation("harness h01 (c05) failed to run", {"output": out[-4000:]}, found_input=False)
-        else:
-            summary = json.load(open(os.path.join(cases, "c05_summary.json")))
-            failures = json.load(open(os.path.join(cases, "c05_failures.json")))
+        # one process per group of legs: the compiler's databases of a leg are returned to the OS when
+        # its process exits (the core-library leg alone needs > 10 GB)
+        groups = ["gen,pass", "examples", "bug_samples"] + (["corelib"] if ctx.thorough else [])
+        summary = {"legs": {}, "items": 0, "comparisons": 0, "samples": [], "reference_checked": 0,
+                   "reference_disagreements": 0}
+        ran_all = True
+        for g in groups:
+            env = vlib.env_offline()
+            env["H01_C05_LEGS"] = g
+            rc, out = vlib.run([vlib.harness_bin("h01"), cases, ctx.tier, "c05"], timeout=5000, env=env)
+            ctx.log(out.strip().splitlines()[-1] if out.strip() else "h01 (%s): no output" % g)
+            sfx = "_" + g.replace(",", "_")
+            sp = os.path.join(cases, "c05_summary%s.json" % sfx)
+            if rc != 0 or not os.path.exists(sp):
+                ctx.violation("harness h01 (c05, legs %s) failed to run" % g, {"output": out[-4000:], "rc": rc},
+                              found_input=False)
+                ran_all = False
+                continue
+            part = json.load(open(sp))
+            failures += json.load(open(os.path.join(cases, "c05_failures%s.json" % sfx)))
+            summary["legs"].update(part.get("legs", {}))
+            summary["configurations"] = part.get("configurations")
+            for k in ("items", "comparisons", "reference_checked", "reference_disagreements"):
+                summary[k] += part.get(k, 0)
+            summary["samples"] += part.get("samples", [])
+            if part.get("pass_cases"):
+                summary["pass_cases"] = part["pass_cases"]
+            if part.get("gen_programs") and "gen" in g:
+                summary["gen_programs"] = part["gen_programs"]
+                summary["gen_constructs"] = part.get("gen_constructs")
+        if ran_all or summary["comparisons"]:
             if have_kernel and ok_make:
                 for shard, ok, o in vlib.run_case_shards(ctx, cases, pattern="c05_pass_*.v"):
                     if not ok:
